@@ -55,6 +55,8 @@ func main() {
 		}
 		fmt.Println(string(b))
 		fmt.Println("re-run: ./bin/gdsa check <property> to re-derive this instance on the current tree")
+	case "indexes":
+		debugIndexes(os.Args[2:])
 	case "guards":
 		debugGuards(os.Args[2:])
 	case "control":
